@@ -362,13 +362,13 @@ func (v Val) Size() int {
 func (v Val) Depth() int {
 	d := 0
 	for _, x := range v.L {
-		if x.Depth()+1 > d {
-			d = x.Depth() + 1
+		if xd := x.Depth() + 1; xd > d {
+			d = xd
 		}
 	}
 	for _, e := range v.M {
-		if e.V.Depth()+1 > d {
-			d = e.V.Depth() + 1
+		if ed := e.V.Depth() + 1; ed > d {
+			d = ed
 		}
 	}
 	if (v.K == '[' || v.K == '{') && d == 0 {
